@@ -11,6 +11,7 @@
 -/
 import PyTough.Model.RectGeo
 import PyTough.Proofs.RectGeo
+import PyTough.Proofs.RectGeoCompose
 import PyTough.Proofs.RectGeoExample
 import PyTough.Proofs.FromGeoExample
 
@@ -120,6 +121,79 @@ theorem rectangle_half_width (x0 x1 y0 y1 : Rat) (hx : x0 ≠ x1) (hy : y0 ≠ y
 
 -- column a of the C04 example: [0,2] x [0,2], centre (1,1), edge x = 2: squared distance (2/2)²
 example : P2.normSq (P2.sub (lineProjection ⟨1, 1⟩ ⟨2, 0⟩ ⟨2, 2⟩) ⟨1, 1⟩) = ((2 - 0) / 2 : Rat) ^ 2 := by decide +kernel
+
+/-! ### the composition `rectgeo ∘ fromgeo`, as far as it is proved (`_partial`)
+
+  The property's main clause is `rectgeo (fromgeo G)` = `G` for a rectangular `G`.  The theorems
+  below prove it step by step **for every grid on which the walks of `rectgeo` are lines**
+  (`AxisLines`, `ColumnRecovers`: conjunctions of the decidable `isLine` with equalities between
+  block data of the grid and `block_centre`/`block_volume` of the generating geometry — C04's
+  `grid_block_data`).  What is missing for the unconditional statement, exactly:
+  (a) that `fromgeo` of a rectangular geometry *has* these lines for all sizes `nx, ny, nz`
+      (an induction over the three nested loops of `fromgeo`; instead the driver evaluates
+      `isLine` on the three axis walks of every explored grid — 100 % — and the harness checks the
+      model's spacings and surfaces against the generating ones exactly on every unrotated case);
+  (b) `block_mapping`: the hypothesis `mp.lookup (bottom block name) = origin-column block` of
+      `ColumnRecovers`, and that `fromgeo (geo, blockmap)` regenerates the grid (evaluated inside
+      the model by the driver on every case: field `F`);
+  (c) the rotation angle (`asin`). -/
+
+/-- Spacings, three-dimensional grid: if the walks from the origin block along directions 1 and 2
+    and from the topmost block along direction 3 are lines (going down), `block_spacings` returns
+    the doubled own distances along them. -/
+theorem rectgeo_spacings_partial (T : TGrid) (ob tb : GBlock) (mv : Rat) (sx sy sz : List (GConn × GBlock))
+    (h : AxisLines T ob mv sx sy sz tb) (hx : sx ≠ []) (hy : sy ≠ []) (hz : sz ≠ []) :
+    blockSpacings T ob mv = .ok (lineSizes none ob sx, lineSizes none ob sy, lineSizes none tb sz) :=
+  blockSpacings_3d T ob tb mv sx sy sz h hx hy hz
+
+/-- Spacings, two-dimensional grids: a single block along direction 1 (resp. 2); the missing
+    spacing is the one `missing_direction_spacing` characterises. -/
+theorem rectgeo_spacings_2d_partial (T : TGrid) (ob tb : GBlock) (mv : Rat) (s sz : List (GConn × GBlock))
+    (hs : s ≠ []) (hz : sz ≠ []) (d : Rat) :
+    (AxisLines T ob mv [] s sz tb →
+      missingSpacing [] (lineSizes none ob s) (lineSizes none tb sz) [2, 3] ob.volume = .ok d →
+      blockSpacings T ob mv = .ok ([d], lineSizes none ob s, lineSizes none tb sz)) ∧
+    (AxisLines T ob mv s [] sz tb →
+      missingSpacing (lineSizes none ob s) [] (lineSizes none tb sz) [1, 3] ob.volume = .ok d →
+      blockSpacings T ob mv = .ok (lineSizes none ob s, [d], lineSizes none tb sz)) :=
+  ⟨fun h hd => blockSpacings_2d_x T ob tb mv s sz h hs hz d hd,
+   fun h hd => blockSpacings_2d_y T ob tb mv s sz h hs hz d hd⟩
+
+/-- ... and those doubled distances are the generating spacings `ws` whenever every block's own
+    distance along the line is half its width — which C04 proves for rectangular columns
+    (`rectangle_half_width`) and for layers (`vertical_connection_geometry`). -/
+theorem line_sizes_are_widths (steps : List (GConn × GBlock)) (prev : Option GConn) (b : GBlock) (ws : List Rat)
+    (h : HalfWidths prev b steps ws) : lineSizes prev b steps = ws :=
+  lineSizes_of_halfWidths steps prev b ws h
+
+/-- Surfaces: if every reconstructed column corresponds to a generating column whose blocks form
+    a vertical line in the grid, with the top block carrying C04's centre and volume
+    (`ColumnRecovers`), `find_surface` gives every reconstructed column the generating surface —
+    inside a layer, at a layer top, or above the top layer. -/
+theorem surfaces_recovered_partial (T : TGrid) (G g1 : Geo) (mp : BlockMap) (mv : Rat) (hwf : LayersWF G)
+    (cols1 colsG : List Column) (h : List.Forall₂ (ColumnRecovers T G g1 mp mv) cols1 colsG) :
+    findSurfaceCols T g1 mp mv [] cols1 =
+      .ok (List.zipWith (fun c1 cG => { c1 with surface := cG.surface }) cols1 colsG) :=
+  findSurfaceCols_recovered T G g1 mp mv hwf cols1 colsG h
+
+/-- ... and `snap_columns_to_layers` leaves such a surface alone when the surface block is at
+    least `layer_snap` thick. -/
+theorem snap_keeps_surface (g : Geo) (minThick : Rat) (nl : Nat) (col : Column) (top : Layer)
+    (htop : g.layerlist[g.layerlist.length - nl]? = some top) (hthick : minThick ≤ col.surface - top.bottom) :
+    snapColumn g minThick nl col = .ok col :=
+  snapColumn_keeps g minThick nl col top htop hthick
+
+/-- Position: after `match_position` the reconstruction's origin block (bottom layer, first
+    column) has the centre of the grid's origin block. -/
+theorem origin_recovered (g : Geo) (ob : GBlock) (cs : P2) (g2 : Geo) (oc : P3)
+    (hoc : ob.centre = some oc) (h : matchPosition g ob cs = .ok g2) :
+    ∃ col lay, g2.columns.head? = some col ∧ g2.layerlist.getLast? = some lay ∧
+      blockCentre g2 lay col = some oc :=
+  matchPosition_places_origin g ob cs g2 oc hoc h
+
+-- the row of the example grid: the axis walk in direction 1 is a line with half widths 1, 2, 3
+example : HalfWidths none Ex.a Ex.steps [2, 4, 6] := by
+  refine ⟨2, [4, 6], rfl, by decide +kernel, 4, [6], rfl, by decide +kernel, 6, rfl, by decide +kernel⟩
 
 /-! ### orientation -/
 
